@@ -354,6 +354,16 @@ static void family(const char *type, reenc_f f, const uint8_t *der, size_t n) { 
 			case 3: memcpy(rep, v, vl); rl = vl; if (rl) rep[0] |= 0x80; break; /* negative */ case 4: rl = 0; break; /* empty */ default: rl = vl > 1 ? vl - 1 : 0; memcpy(rep, v + (vl > 1 ? 1 : 0), rl); break; /* first content octet dropped */ }
 			int ix2 = mi; size_t ml = member_replace(der, n, &ix2, rep, rl, m); if (!ml) continue; static const char *KN[] = { "member-with-33-content-octets", "member-with-34-content-octets", "member-with-redundant-leading-zero", "member-negative", "member-empty", "member-without-its-first-octet" }; snprintf(how, sizeof how, "%s", KN[kind]); offer_reenc(type, f, m, ml, how); } }
 }
+static int re_p8(const uint8_t *in, size_t n, uint8_t *re, size_t *rl) { SM2_KEY k; memset(&k, 0xAA, sizeof k); const uint8_t *cp = in, *at; size_t il = n, al; if (sm2_private_key_info_from_der(&k, &at, &al, &cp, &il) != 1 || il) return 0; uint8_t *p = re; *rl = 0; if (sm2_private_key_info_to_der(&k, &p, rl) != 1) *rl = 0; return 1; }
+static int re_ecpriv(const uint8_t *in, size_t n, uint8_t *re, size_t *rl) { SM2_KEY k; memset(&k, 0xAA, sizeof k); const uint8_t *cp = in; size_t il = n; if (sm2_private_key_from_der(&k, &cp, &il) != 1 || il) return 0; uint8_t *p = re; *rl = 0; if (sm2_private_key_to_der(&k, &p, rl) != 1) *rl = 0; return 1; }
+static int re_spki(const uint8_t *in, size_t n, uint8_t *re, size_t *rl) { SM2_KEY k; memset(&k, 0xAA, sizeof k); const uint8_t *cp = in; size_t il = n; if (sm2_public_key_info_from_der(&k, &cp, &il) != 1 || il) return 0; uint8_t *p = re; *rl = 0; if (sm2_public_key_info_to_der(&k, &p, rl) != 1) *rl = 0; return 1; }
+static void blk_key_families(void) {
+	if (!vh_block_begin("key-containers-member-variants")) return; static uint8_t der[400]; uint8_t *p; size_t n; SM2_KEY k; sm2_z256_t z; sm2_z256_from_hex(z, "3945208F7B2144B13F36E38AC6D39F95889393692860B51A42FB81EF4DF7C5B8"); if (sm2_key_set_private_key(&k, z) != 1) vh_harness_error("key");
+	if (vh_next()) { p = der; n = 0; sm2_private_key_info_to_der(&k, &p, &n); family("sm2_private_key_info", re_p8, der, n); }
+	if (vh_next()) { p = der; n = 0; sm2_private_key_to_der(&k, &p, &n); family("sm2_private_key", re_ecpriv, der, n); }
+	if (vh_next()) { p = der; n = 0; sm2_public_key_info_to_der(&k, &p, &n); family("sm2_public_key_info", re_spki, der, n); }
+	vh_sample("{\"block\":\"key-containers-member-variants\",\"families\":[\"sm2_private_key_info\",\"sm2_private_key\",\"sm2_public_key_info\"]}");
+}
 static void blk_sig_ct(void) {
 	if (!vh_block_begin("signatures-and-ciphertexts")) return; static uint8_t der[1200]; uint8_t *p; size_t n;
 	static const uint8_t LEAD[] = { 0x00, 0x01, 0x7f, 0x80, 0xff };
@@ -387,5 +397,5 @@ static void blk_pkcs8_params(void) {
 		cp = hb; il = dl; memset(&k2, 0, sizeof k2); int rw = sm2_private_key_info_decrypt_from_der(&k2, &at, &al, "P@sr", &cp, &il); vh_eval(vh_hash(kk, sizeof kk, 62)); if (rw == 1) { vh_viol("C14:pkcs8-parameter-sets:wrong-password-opens", "\"salt\":%zu,\"iter\":%d,\"keylen\":%d,\"prf\":%d", SL[si], IT[ii], KLN[ki], PRF[pi]); }
 		free(hb); vh_sample("{\"block\":\"pkcs8-parameter-sets\",\"salt\":%zu,\"iter\":%d,\"keylen\":%d,\"prf\":%d,\"opened\":%d}", SL[si], IT[ii], KLN[ki], PRF[pi], r == 1); }
 }
-static void body(void) { blk_decoders(); blk_pkcs8_params(); blk_sig_ct(); blk_text(); blk_composite(); blk_typed_pem(); blk_reused_destination(); blk_values(); }
+static void body(void) { blk_decoders(); blk_pkcs8_params(); blk_sig_ct(); blk_key_families(); blk_text(); blk_composite(); blk_typed_pem(); blk_reused_destination(); blk_values(); }
 int main(int argc, char **argv) { vh_init(argc, argv); vh_guarded("C14", body, 120); return vh_finish(); }
